@@ -1,0 +1,50 @@
+//! Verification wrappers (cfg `bmwill_anemo_verif`) over crate-private items of `network`.
+//! They add no behaviour of their own: every function forwards to the production item.
+
+use crate::{types::Version, Config, Request, Response, Result};
+use bytes::Bytes;
+use tokio::io::{AsyncRead, AsyncWrite};
+use tokio_util::codec::{FramedRead, FramedWrite, LengthDelimitedCodec};
+
+pub use super::connection_manager::verif_hooks::{tie_break, DirectConnection, DirectEndpoint, DirectPeers};
+
+pub fn network_message_frame_codec(config: &Config) -> LengthDelimitedCodec {
+    super::wire::network_message_frame_codec(config)
+}
+
+pub async fn read_version_frame<T: AsyncRead + Unpin>(recv_stream: &mut T) -> Result<Version> {
+    super::wire::read_version_frame(recv_stream).await
+}
+
+pub async fn write_version_frame<T: AsyncWrite + Unpin>(
+    send_stream: &mut T,
+    version: Version,
+) -> Result<()> {
+    super::wire::write_version_frame(send_stream, version).await
+}
+
+pub async fn write_request<T: AsyncWrite + Unpin>(
+    send_stream: &mut FramedWrite<T, LengthDelimitedCodec>,
+    request: Request<Bytes>,
+) -> Result<()> {
+    super::wire::write_request(send_stream, request).await
+}
+
+pub async fn write_response<T: AsyncWrite + Unpin>(
+    send_stream: &mut FramedWrite<T, LengthDelimitedCodec>,
+    response: Response<Bytes>,
+) -> Result<()> {
+    super::wire::write_response(send_stream, response).await
+}
+
+pub async fn read_request<T: AsyncRead + Unpin>(
+    recv_stream: &mut FramedRead<T, LengthDelimitedCodec>,
+) -> Result<Request<Bytes>> {
+    super::wire::read_request(recv_stream).await
+}
+
+pub async fn read_response<T: AsyncRead + Unpin>(
+    recv_stream: &mut FramedRead<T, LengthDelimitedCodec>,
+) -> Result<Response<Bytes>> {
+    super::wire::read_response(recv_stream).await
+}
